@@ -234,7 +234,11 @@ def run_fwd(ctx) -> RuleResult:
                     for step in path:
                         for call in step_calls(step):
                             cname = ctx.dotted(module, call.func) or ""
-                            if (cname.startswith("numpy.") and cname.split(".")[-1] in names) or cname == SIMPLE_DISPATCH:
+                            recursive = cname == f"{module.name}.{qual}" or (
+                                cname.startswith("numpoly.") and cname.split(".")[-1] == func.name
+                                and ctx.res.public(func.name).node is func)
+                            if (cname.startswith("numpy.") and cname.split(".")[-1] in names) or cname == SIMPLE_DISPATCH \
+                                    or recursive:
                                 first_call = first_call or (step, call, cname)
                                 texts.append(U(step.expand(call)))
                                 for kw in call.keywords:
